@@ -13,7 +13,7 @@ import os
 import shutil
 
 from ..core import codebase, env, par, shrink
-from ..core.result import Failure, Report
+from ..core.result import Failure, Report, robust
 
 ID = "C15"
 
@@ -167,9 +167,13 @@ def _work(cases):
             for i in range(len(c)):
                 if c[i] != 0:
                     yield c[:i] + (0,) + c[i + 1:]
-        w = shrink.minimize(tuple(case), cands, fl)
-        b = [x for x in judge(base, w) if x[0] == kind][0]
-        f = Failure(kind, {"case": list(w), "aliases": describe(w)}, expected=b[1], observed=b[2])
+        def mk():
+            if not fl(tuple(case)):
+                return None
+            w = shrink.minimize(tuple(case), cands, fl)
+            b = [x for x in judge(base, w) if x[0] == kind][0]
+            return Failure(kind, {"case": list(w), "aliases": describe(w)}, expected=b[1], observed=b[2])
+        f = robust(mk, {"case": list(case), "aliases": describe(case)})
         if f.key() not in seen:
             seen.add(f.key())
             out.append(f)
